@@ -42,9 +42,10 @@ ASSUMPTIONS = [
     "nearest neighbour: samples within 1e-3 of a tie are not judged; samples within 1e-3 outside the boundary of the field of view are not judged (knife-edge rule)",
     "impulse images on sources with <= 12 voxels recover the whole sampling operator (linearity), other sources carry an integer pattern in [0, 100]",
 ]
-MIN_NONTRIVIAL = {"quick": 3000, "thorough": 10000}
-MIN_OUTCOMES = {"quick": 1500, "thorough": 5000}
-MIN_SUB_TRACES = {"fov": 2000, "own-grid": 50, "coords": 500, "padding": 1000}
+# measured (quick): 27648 configurations, 2943 distinct result tensors, 19836 non-trivial; thorough = 3 x the sources
+MIN_NONTRIVIAL = {"quick": 10000, "thorough": 25000}
+MIN_OUTCOMES = {"quick": 1400, "thorough": 3000}
+MIN_SUB_TRACES = {"fov": 13000, "own-grid": 450, "coords": 3400, "padding": 5500}
 
 EPS32 = 2.0 ** -23
 CTOL = 64.0
